@@ -388,7 +388,7 @@ SECTION_RE = re.compile(
     r'''
     ^                                                    # start
     \s*                                                  # 0 or more whitespace characters
-    SECTION                                              # SECTION
+    SECTION(?=[\s:])                                     # SECTION (not a symbol merely starting with it)
     \s*                                                  # 0 or more whitespace characters
     (?P<delimiter>:?)                                    # delimiter
     \s*                                                  # 0 or more whitespace characters
